@@ -4,6 +4,7 @@ import (
 	"fmt"
 	"sort"
 	"strings"
+	"time"
 	"unicode/utf8"
 
 	parser "github.com/a-h/templ/parser/v2"
@@ -351,9 +352,36 @@ type scriptPart struct {
 	trail  string
 }
 
+// parserHung is set when the repository's parser did not come back on some template: the goroutine cannot be stopped,
+// so no further template is handed to the parser in this run
+var parserHung bool
+
+// parseTimed runs the repository's parser with a deadline (a changed parser may loop on input the pinned tests never see)
+func parseTimed(src string) (tf parser.TemplateFile, err error) {
+	if parserHung {
+		return parser.TemplateFile{}, fmt.Errorf("parser not called: it did not terminate on an earlier template")
+	}
+	type res struct {
+		tf  parser.TemplateFile
+		err error
+	}
+	ch := make(chan res, 1)
+	go func() {
+		tf, err := parser.ParseString(src)
+		ch <- res{tf, err}
+	}()
+	select {
+	case r := <-ch:
+		return r.tf, r.err
+	case <-time.After(20 * time.Second):
+		parserHung = true
+		return parser.TemplateFile{}, fmt.Errorf("the parser did not terminate within 20 s")
+	}
+}
+
 func parseScript(t stmpl) parsedScript {
 	body := t.body()
-	tf, err := parser.ParseString("package p\n\n" + t.source("T"))
+	tf, err := parseTimed("package p\n\n" + t.source("T"))
 	if err != nil {
 		return parsedScript{why: "parse error: " + err.Error()}
 	}
@@ -520,6 +548,12 @@ type kernelScript struct {
 
 var kernelScripts []kernelScript
 
+// sweep scripts handed to node in the thorough tier (node.go): the rendering, and the values the specification's lexer
+// gives the two string tokens of the template
+type nodeScriptCase struct{ src, tpl, a, b string }
+
+var nodeScripts []nodeScriptCase
+
 type scriptPlan struct {
 	all      []stmpl
 	compiled []int // indices into all: generated, compiled and run as well
@@ -573,6 +607,9 @@ func famScripts(c *core.Ctx, t *tally, pl scriptPlan, sc *scratch, compiledOK ma
 		if !p.ok {
 			rejected++
 			c.Hist("script: not accepted by the parser (no rendering to judge)")
+			if strings.Contains(p.why, "did not terminate within") {
+				t.tie(tieTrack, map[string]string{"template": "<script>" + tp.body() + "</script>"}, p.why)
+			}
 		}
 		nv := 3
 		if i%7 == 0 {
@@ -665,6 +702,26 @@ func famScripts(c *core.Ctx, t *tally, pl scriptPlan, sc *scratch, compiledOK ma
 			c.Hist("script: rendered and judged, inside the fragment of C03_script_structure_partial")
 		}
 		if bits == "11" {
+			if !c.Quick() && len(cs.t.feats) == 1 && strings.HasPrefix(cs.t.feats[0], "sweep:") && len(nodeScripts) < 60000 &&
+				utf8.ValidString(cs.vals[0]) && utf8.ValidString(cs.vals[1]) {
+				// exactly two string tokens, every token well-formed: then node must agree on both values
+				var strs []string
+				clean := true
+				for _, b := range a[6:] {
+					if string(b) == "|" {
+						break
+					}
+					switch {
+					case len(b) > 0 && b[0] == 'S':
+						strs = append(strs, string(b[1:]))
+					case len(b) > 0 && (b[0] == 's' || b[0] == 'X'):
+						clean = false
+					}
+				}
+				if clean && len(strs) == 2 && utf8.ValidString(strs[0]) && utf8.ValidString(strs[1]) {
+					nodeScripts = append(nodeScripts, nodeScriptCase{cs.out, body, strs[0], strs[1]})
+				}
+			}
 			continue
 		}
 		in["in_theorem_fragment"] = fmt.Sprint(inFragment)
